@@ -39,6 +39,8 @@ func Run(args []string) error {
 		switch b.Kind {
 		case "bridge":
 			mk = func(dir string, rng *rand.Rand) (kindDriver, error) { return newBridgeKind(dir, rng, r.opts), nil }
+		case "ger":
+			mk = func(dir string, rng *rand.Rand) (kindDriver, error) { return newGerKind(dir, rng, r.opts), nil }
 		case "l1info":
 			mk = func(dir string, rng *rand.Rand) (kindDriver, error) { return newL1Kind(dir, rng, r.opts), nil }
 		default:
